@@ -12,7 +12,8 @@ RULE = ("The real CLI cmd_send.send() and cmd_receive.receive() run end to end i
         "mailbox server, real Transit over simulated TCP, real temp directories). Payload: text (any Unicode "
         "without surrogates incl. quotes/newlines/control/wide chars); a file of size 0, 1, 16383..16385, "
         "2*16384+-1 or random <=200 KiB; a directory tree (depth <=3, empty dirs, 0-byte files, names with "
-        "spaces, leading dots/dashes, Unicode, 200 chars). Code set or allocated, listeners on/off. Fault: none; "
+        "spaces, leading dots/dashes, Unicode, 200 chars). Code set or allocated, listeners on/off; optionally the "
+        "leftover <name>.tmp of an earlier interrupted attempt lies in the receiving directory. Fault: none; "
         "cut the sender->receiver data stream after byte k; flip byte k; replace a record by a byte-exact copy of the previous one; cut the link when the acknowledgement is "
         "written; the receiver's acknowledgement carries a wrong / empty / null hash. Faults are applied only to "
         "the SELECTED transit link once both ends are in 'records' state. Oracle: both report success => received "
@@ -53,6 +54,8 @@ def cases(draw, tier="quick"):
     if c["kind"] == "file":
         c["size"] = draw(st.one_of(st.sampled_from([0, 1, 16383, 16384, 16385, 32767, 32768, 32769]), st.integers(0, 200000)))
         c["fname"] = draw(st.sampled_from(NAMES))
+        # the leftover `<name>.tmp` of an earlier, interrupted attempt into the same directory
+        c["stale_tmp"] = draw(st.sampled_from([None, None, 0, 1, 5000, 70000]))
     elif c["kind"] == "dir":
         c["tree"] = draw(trees())
         c["dname"] = draw(st.sampled_from(["d", "dir with space", "ünï-dir", ".hid"]))
@@ -165,6 +168,9 @@ def run_case(c):
             with open(os.path.join(sd, c["fname"]), "wb") as f:
                 f.write((bytes((k * 7 + 3) % 256 for k in range(251)) * (size // 251 + 1))[:size])
             sa.what = c["fname"]
+            if c.get("stale_tmp") is not None:
+                with open(os.path.join(rd, c["fname"] + ".tmp"), "wb") as f:
+                    f.write(b"\xee" * c["stale_tmp"])
         elif kind == "dir":
             nentries = build(os.path.join(sd, c["dname"]), c["tree"])
             sa.what = c["dname"]
@@ -348,7 +354,8 @@ def run_case(c):
         big = (kind == "file" and c["size"] > 16384) or (kind == "dir" and nentries >= 2)
         res.nontrivial = big or faulted[0] is not None
         res.features = dict(kind=kind, fault=c["fault"], applied=faulted[0] or "-", code=c["code"],
-                            listen="%d%d" % tuple(c["listen"]), relay=bool(c.get("relay")), big=big, s_ok=s_ok, r_ok=r_ok)
+                            listen="%d%d" % tuple(c["listen"]), relay=bool(c.get("relay")), big=big, s_ok=s_ok, r_ok=r_ok,
+                            stale_tmp=c.get("stale_tmp") is not None)
         res.trace = ",".join(W.trace[:200])
         res.steps = W.steps
         res.sample = dict(case={k: v for k, v in c.items() if k != "tape"}, sender=_short(S), receiver=_short(R),
